@@ -46,3 +46,6 @@ unsigned g_pr_calls; const struct jwk_set *g_pr_set; const struct json_t *g_pr_j
 
 /* jwks_load / jwks_create* wrapper units: the loader call */
 unsigned g_ls_calls; const struct jwk_set *g_ls_set; const void *g_ls_src; size_t g_ls_len; int g_ls_empty; struct jwk_set *g_ls_ret;
+
+/* jwt_checker_claim_set unit: what the setter was asked to store */
+int g_set_type, g_set_replace; const char *g_set_name, *g_set_str;
